@@ -40,20 +40,46 @@ var c17Extra = []CorpusItem{
 	{"incloop", "s{% include 'incloop' %}e"},
 	{"embed2", "p{% embed 'base2' %}{% block b %}E{{ a }}{% endblock %}{% endembed %}q"},
 	{"blockfn2", "{% block b %}B{{ a }}{% endblock %}-{{ block('b') }}-"},
-	{"incbroken", "pre{% include 'broken' %}post"},
-	{"incbrokenl", "pre{{ a }}{% include 'brokenl' %}post"},
-	{"incmissing", "pre{% include 'nosuch' %}post"},
-	{"extmissing", "{% extends 'nosuch' %}{% block a %}{% endblock %}"},
-	{"rtfirst", "{{ a|nofilter }}tail"},
-	{"rtlast", "head{{ a }}{{ nofunc() }}"},
-	{"rtiter", "h{% for v in a %}x{% endfor %}t"},
-	{"rtmacro", "{% import 'macros' as mm %}a{{ mm.zz(1) }}b"},
+	{"fail:incbroken", "pre{% include 'broken' %}post"},
+	{"fail:incbrokenl", "pre{{ a }}{% include 'brokenl' %}post"},
+	{"fail:incmissing", "pre{% include 'nosuch' %}post"},
+	{"fail:extmissing", "{% extends 'nosuch' %}{% block a %}{% endblock %}"},
+	{"fail:rtfirst", "{{ a|nofilter }}tail"},
+	{"fail:rtlast", "head{{ a }}{{ nofunc() }}"},
+	{"fail:rtiter", "h{% for v in a %}x{% endfor %}t"},
+	{"fail:rtmacro", "{% import 'macros' as mm %}a{{ mm.zz(1) }}b"},
+	// loops over maps (single entries: the order of a map is not fixed), failures inside their bodies
+	{"formap", "a{% for k, v in {'p': 1} %}b{{ k }}{{ v }}c{% endfor %}d"},
+	{"formapctx", "a{% for k, v in h %}b{{ k }}{{ v }}c{% endfor %}d{% for v in h %}e{{ v }}{% endfor %}"},
+	{"formapinc", "a{% for k, v in h %}[{% include 'inc' %}]{% endfor %}d"},
+	{"formapnest", "a{% for r in arr %}[{% for k, x in h %}{{ x }}{% filter up %}f{{ r }}{% endfilter %}{% endfor %}]{% endfor %}b"},
+	{"fail:formaprt", "a{% for k, v in h %}b{{ nofunc() }}c{% endfor %}d"},
+	{"fail:formapinc", "a{% for k, v in {'p': 1} %}b{% include 'nosuch' %}c{% endfor %}d"},
+	// a non-iterable sequence at every nesting: in a list loop, in a map loop, in a branch, in an else branch, in a block
+	{"fail:rtiterinfor", "h{% for r in arr %}[{% for v in a %}x{% endfor %}]{% endfor %}t"},
+	{"fail:rtiterinmap", "h{% for k, r in h %}[{% for v in a %}x{% endfor %}]{% endfor %}t"},
+	{"fail:rtiterinif", "h{% if a %}[{% for v in a %}x{% endfor %}]{% endif %}t"},
+	{"fail:rtiterinelse", "h{% for r in [] %}n{% else %}[{% for v in a %}x{% endfor %}]{% endfor %}t"},
+	{"fail:rtiterinblock", "h{% block q %}{% for r in arr %}[{% for v in a %}x{% endfor %}]{% endfor %}{% endblock %}t"},
+	{"fail:rtiterdeep", "h{% for r in arr %}{% for s in arr %}{% for v in a %}x{% endfor %}{% endfor %}{% endfor %}t"},
 	{"filtparent", "{% extends 'base2' %}{% block a %}{% filter up %}f{{ parent() }}{% endfilter %}{% endblock %}"},
 }
 
 func c17Corpus(tier string) []CorpusItem {
 	var items []CorpusItem
 	items = append(items, c17Extra...)
+	// every kind of malformed template, executed directly and reached through include / extends / embed after some output
+	for i, src := range c17Broken {
+		items = append(items, CorpusItem{"fail:parse" + itoa(i), "pre" + src + "post"})
+		switch i % 3 {
+		case 0:
+			items = append(items, CorpusItem{"fail:incparse" + itoa(i), "pre{{ a }}{% include 'brk" + itoa(i) + "' %}post"})
+		case 1:
+			items = append(items, CorpusItem{"fail:extparse" + itoa(i), "{% extends 'brk" + itoa(i) + "' %}{% block a %}x{% endblock %}"})
+		default:
+			items = append(items, CorpusItem{"fail:embparse" + itoa(i), "pre{% embed 'brk" + itoa(i) + "' %}{% endembed %}post"})
+		}
+	}
 	for _, it := range corpus() {
 		if strings.HasPrefix(it.Name, "expr") && !thorough(tier) {
 			continue
@@ -144,6 +170,9 @@ func c17Tpls_(main string) map[string]string {
 	}
 	for k, v := range c17Tpls {
 		m[k] = v
+	}
+	for i, src := range c17Broken {
+		m["brk"+itoa(i)] = src
 	}
 	return m
 }
@@ -380,6 +409,9 @@ func c17Run(c core.Case) core.Result {
 	}
 	switch c.Fam {
 	case "nofault":
+		if strings.HasPrefix(name, "fail:") && ref.err == nil {
+			return core.Violation("error-swallowed", fmt.Sprintf("%q (%s) cannot be parsed, loaded or executed to the end, but Execute returned nil and wrote %q", name, c.Src, full))
+		}
 		s := c17Exec(c.Src, true, 0, 0, 0)
 		if s.pan != "" {
 			return core.Violation("panic", "ExecuteSafe panicked: "+s.pan)
